@@ -257,7 +257,7 @@ fn multisets(kinds: usize, size: usize, f: &mut dyn FnMut(&[usize])) {
 
 pub fn run(tier: Tier) -> Report {
     let rep = Report::new("C17", tier);
-    rep.set_rule("every multiset of <= K stream items over Q queries x T tracks x distances {.25,.5,1,2,None} (quick: 2x2, K=4; thorough: 3x3 K=4 and 2x2 K=6), plus streams in which queries and tracks share ONE id space {1,2,3} (every ordered pair q != t x distances {.25,.5,1}, K=4 quick / 5 thorough), every permutation of streams of <= 4 items (rotations, reversal and adjacent transpositions of the canonical order for 5-6 items), N in {1,2,3}, min_votes in {1,2}, max_distance in {.5,.75,1,1.5,2,10} (three of them equal to a distance of the menu: 'not exceeding' is decided at equality); TopN and BestFit judged against the counting rules (also on streams with 1..40 tracks per query, N up to 10), results of tie-free streams required identical across orders; VisualVoting and Hungarian voting judged structurally (Hungarian: weights {absent, 0 (gated out, the query still appears), .2, .5, .9}; plus 2x2 matrices over weights 5 and 14 millionths apart in every arrival order); TopN / BestFit streams whose distances differ in the last bits of an f32 (weights 2e-7 apart) in every order. Non-trivial = at least two items.");
+    rep.set_rule("every multiset of <= K stream items over Q queries x T tracks x distances {.25,.5,1,2,None} (quick: 2x2, K=4; thorough: 3x3 K=4 and 2x2 K=6), plus streams in which queries and tracks share ONE id space {1,2,3} (every ordered pair q != t x distances {.25,.5,1}, K=4 quick / 5 thorough), plus streams of similarity-like distances {-.9,-.5,-.2,.25} (2x2, K=4 quick / 5 thorough; most of them hold negative distances only; also max_distance -.5 / -.3 / -.1), every permutation of streams of <= 4 items (rotations, reversal and adjacent transpositions of the canonical order for 5-6 items), N in {1,2,3}, min_votes in {1,2}, max_distance in {.5,.75,1,1.5,2,10} (three of them equal to a distance of the menu: 'not exceeding' is decided at equality); TopN and BestFit judged against the counting rules (also on streams with 1..40 tracks per query, N up to 10), results of tie-free streams required identical across orders; VisualVoting and Hungarian voting judged structurally (Hungarian: weights {absent, 0 (gated out, the query still appears), .2, .5, .9}; plus 2x2 matrices over weights 5 and 14 millionths apart in every arrival order); TopN / BestFit streams whose distances differ in the last bits of an f32 (weights 2e-7 apart) in every order. Non-trivial = at least two items.");
     let dmenu: Vec<Option<f32>> = vec![Some(0.25), Some(0.5), Some(1.0), Some(2.0), None];
     let params: Vec<(usize, usize, f32)> = {
         let mut p = vec![];
@@ -270,12 +270,17 @@ pub fn run(tier: Tier) -> Report {
         }
         p
     };
+    // thresholds inside the negative range, for the signed menu
+    let signed_params: Vec<(usize, usize, f32)> = vec![(1, 1, -0.3), (2, 1, -0.5), (1, 2, -0.3), (3, 1, -0.1)];
     let evals = AtomicU64::new(0);
     let nontrivial = AtomicU64::new(0);
     // the last configuration has queries and tracks in ONE id space {1,2,3} (merging tracks of one store:
     // a query's own id is also some other query's candidate track); pairs of a track with itself do not occur
-    let configs: Vec<(usize, usize, usize, bool)> = tier.pick(vec![(2, 2, 4, false), (3, 3, 4, true)], vec![(3, 3, 4, false), (2, 2, 6, false), (2, 3, 5, false), (3, 3, 5, true)]);
-    for (nq, nt, kmax, shared) in configs {
+    // the last flag selects a menu of similarity-like distances (cosine: values in [-1, 1]): three negative ones and
+    // one positive, so that most streams hold negative distances only
+    let configs: Vec<(usize, usize, usize, bool, bool)> = tier.pick(vec![(2, 2, 4, false, false), (3, 3, 4, true, false), (2, 2, 4, false, true)], vec![(3, 3, 4, false, false), (2, 2, 6, false, false), (2, 3, 5, false, false), (3, 3, 5, true, false), (2, 2, 5, false, true), (3, 2, 4, false, true)]);
+    let signed_menu: Vec<Option<f32>> = vec![Some(-0.9), Some(-0.5), Some(-0.2), Some(0.25)];
+    for (nq, nt, kmax, shared, signed) in configs {
         let kinds: Vec<Item> = {
             let mut k = vec![];
             for q in 0..nq {
@@ -288,7 +293,7 @@ pub fn run(tier: Tier) -> Report {
                         }
                         continue;
                     }
-                    for d in &dmenu {
+                    for d in if signed { &signed_menu } else { &dmenu } {
                         k.push((QB + q as u64, TB + t as u64, *d));
                     }
                 }
@@ -319,7 +324,7 @@ pub fn run(tier: Tier) -> Report {
                 if size >= 2 {
                     nontrivial.fetch_add(1, Ordering::Relaxed);
                 }
-                for &(n, mv, md) in &params {
+                for &(n, mv, md) in params.iter().chain(if signed { signed_params.iter() } else { [].iter() }) {
                     let mut first_topn: Option<String> = None;
                     let mut first_best: Option<String> = None;
                     for p in &perms {
